@@ -182,8 +182,8 @@ def run(ctx):
     from shelxfile.misc.misc import wrap_line
     common.check_obligations(ctx, THEOREMS)
     rng = ctx.rng
-    nfiles = 400 if ctx.thorough() else 40
-    nsyn = 20000 if ctx.thorough() else 1500
+    nfiles = 2500 if ctx.thorough() else 40
+    nsyn = 80000 if ctx.thorough() else 1500
     texts = []
     ev = 0
     hist = {'lines_gt_78': 0, 'items': 0}
